@@ -571,6 +571,14 @@ class Engine(object):
             return Eq(a.t, b.t)
         if isinstance(a, VVal) and isinstance(b, VVal):
             return Eq(a.t, b.t)
+        if isinstance(a, VVal) and isinstance(b, VStr) or isinstance(b, VVal) and isinstance(a, VStr):
+            vv, ss = (a, b) if isinstance(a, VVal) else (b, a)
+            self.ctx.sort('Val')
+            return Eq(vv.t, self.model_app('val_of_str', [ss.t], 'Val'))
+        if isinstance(a, VVal) and isinstance(b, VRef) or isinstance(b, VVal) and isinstance(a, VRef):
+            vv, rr = (a, b) if isinstance(a, VVal) else (b, a)
+            if isinstance(st.heap.get(rr.loc), HInst):
+                return Eq(vv.t, self.obj_val(rr.loc))       # default equality of instances is identity
         if isinstance(a, VTuple) and isinstance(b, VTuple):
             if len(a.items) != len(b.items):
                 return FALSE
@@ -628,6 +636,16 @@ class Engine(object):
             raise Undecided('is between optional values')
         if isinstance(a, VNone) or isinstance(b, VNone):
             return BoolV(isinstance(a, VNone) and isinstance(b, VNone))
+        if isinstance(a, VExc) and isinstance(b, VExc):
+            return BoolV(a is b)
+        if isinstance(a, VExc) or isinstance(b, VExc):
+            ex, other = (a, b) if isinstance(a, VExc) else (b, a)
+            if isinstance(other, VVal):
+                if '__id__' not in ex.attrs:
+                    self.ctx.sort('Val')
+                    ex.attrs['__id__'] = VVal(self.ctx.fresh('exc_id', 'Val'))
+                return Eq(other.t, ex.attrs['__id__'].t)
+            return FALSE
         if isinstance(a, VRef) and isinstance(b, VRef):
             oa, ob = st.heap.get(a.loc), st.heap.get(b.loc)
             va, vb = getattr(oa, 'view', None), getattr(ob, 'view', None)
@@ -1219,6 +1237,9 @@ class Engine(object):
                 return self._safe_result(has, val, KeyError, st, node)
             if isinstance(o, HInst):
                 return self.call_method_on_instance(base, o, '__getitem__', [idx], {}, st, node)
+        if isinstance(base, VVal) and isinstance(idx, VInt) and self.pure:
+            # spec level: item of an opaque value is an opaque value
+            return [(VVal(self.model_app('py_item', [base.t, idx.t], 'Val')), st)]
         if isinstance(base, VVal) and isinstance(idx, VStr):
             # opaque mapping object (a RuntimeState seen from outside): a pure function of (object, key)
             self.trusted_used.add('opaque-mapping-read: obj[key] is a pure boolean function rs_flag(obj, key) '
